@@ -79,8 +79,8 @@ type c29Cfg struct {
 	Close1   bool  `json:"close1_strict"`
 }
 
-func (c c29Cfg) coq() string {
-	return vApp("mkRcfg", vBool(c.Server), vBool(c.Compress), vN(uint64(c.Limit)), vN(uint64(c.DLimit)), vN(uint64(c.RBuf)), vBool(c.Close1))
+func (c c29Cfg) coq(avail string) string {
+	return vApp("mkRcfg", vBool(c.Server), vBool(c.Compress), vN(uint64(c.Limit)), vN(uint64(c.DLimit)), vN(uint64(c.RBuf)), vBool(c.Close1), avail)
 }
 
 type c29Ev struct {
@@ -356,9 +356,29 @@ func c29CloseOK(code int) bool {
 }
 
 type c29Infl struct {
-	In  []byte
-	Out []byte
-	OK  bool
+	In    []byte
+	Out   []byte
+	OK    bool
+	Avail bool  // streaming entry: In = prefix of a compressed message, N = output bytes handed out before more input is needed
+	N     int64
+}
+
+type c29NeedMore struct{}
+
+func (c29NeedMore) Read([]byte) (int, error) { return 0, errors.New("c29: need more input") }
+
+// c29Surfaced: how many bytes a flate reader hands out when it has been given exactly this prefix of a
+// compressed message and asks for more (the decompressed-size limit trips on this count).
+func c29Surfaced(prefix []byte, tbl *[]c29Infl) int64 {
+	for _, x := range *tbl {
+		if x.Avail && bytes.Equal(x.In, prefix) {
+			return x.N
+		}
+	}
+	fr := flate.NewReader(io.MultiReader(bytes.NewReader(prefix), c29NeedMore{}))
+	n, _ := io.Copy(io.Discard, fr)
+	*tbl = append(*tbl, c29Infl{In: append([]byte{}, prefix...), Avail: true, N: n})
+	return n
 }
 
 var c29Tail = []byte{0, 0, 0xff, 0xff, 1, 0, 0, 0xff, 0xff}
@@ -369,7 +389,7 @@ func c29Inflate(data []byte, tbl *[]c29Infl) ([]byte, bool) {
 	out, err := io.ReadAll(fr)
 	e := c29Infl{In: in, Out: out, OK: err == nil}
 	for _, x := range *tbl {
-		if bytes.Equal(x.In, in) {
+		if !x.Avail && bytes.Equal(x.In, in) {
 			return out, err == nil
 		}
 	}
@@ -523,11 +543,18 @@ func c29Walk(cfg c29Cfg, strict bool, bs []byte, tbl *[]c29Infl) (viol int, bigC
 		if cfg.Limit > 0 && total > uint64(cfg.Limit) {
 			return 0, bigCtl
 		}
+		dtrip := func(data []byte) bool {
+			return compressed && cfg.DLimit > 0 && c29Surfaced(data, tbl) > cfg.DLimit
+		}
 		if uint64(len(bs)) < length {
+			dtrip(append(append([]byte{}, acc...), unmask(bs)...)) // recorded for the model; the stream ends either way
 			return 0, bigCtl
 		}
 		acc = append(acc, unmask(bs[:length])...)
 		bs = bs[length:]
+		if dtrip(acc) { // the part received so far already inflates beyond the limit
+			return 0, bigCtl
+		}
 		if !fin {
 			inFrag = true
 			continue
@@ -939,9 +966,13 @@ func c29EmitObs(w *verifW, i int, cfg c29Cfg, stream []byte, class string, obs [
 		label = 100
 		fkey = "read-buffer-smaller-than-control-frame"
 	}
-	tb := make([]string, len(tbl))
-	for k, e := range tbl {
-		tb[k] = vPair(vBytes(e.In), vOpt(vBytes(e.Out), e.OK))
+	var tb, av []string
+	for _, e := range tbl {
+		if e.Avail {
+			av = append(av, vPair(vBytes(e.In), vN(uint64(e.N))))
+		} else {
+			tb = append(tb, vPair(vBytes(e.In), vOpt(vBytes(e.Out), e.OK)))
+		}
 	}
 	evs := make([]string, len(obs))
 	for k, e := range obs {
@@ -951,7 +982,7 @@ func c29EmitObs(w *verifW, i int, cfg c29Cfg, stream []byte, class string, obs [
 		evs = append(evs, "(Err EPanic)") // unparsable bytes written back
 		class += "/badwrite"
 	}
-	term := vApp("mkCase", cfg.coq(), vList(tb), c29Term(stream), vN(uint64(label)), vList(evs))
+	term := vApp("mkCase", cfg.coq(vApp("avail_of", vList(av))), vList(tb), c29Term(stream), vN(uint64(label)), vList(evs))
 	last := ""
 	if len(obs) > 0 {
 		last = obs[len(obs)-1].Err
@@ -1099,6 +1130,27 @@ func TestVerifC29(t *testing.T) {
 		{withC(srv, func(c *c29Cfg) { c.RBufCfg = 16 }), mk(c29Frame{Fin: true, Op: 8, Masked: true, Key: k, Payload: append([]byte{3, 232}, bytes.Repeat([]byte("r"), 123)...)}), "configured-16-close-125"},
 		{withC(srv, func(c *c29Cfg) { c.Limit = 100 }), []byte{0x02, 0x82, 1, 2, 3, 4, 0x60, 0x60, 0x80, 0xff, 0x7f, 0xff, 0xff, 0xff, 0xff, 0xff, 0xff, 0xff, 1, 2, 3, 4, 0x62, 0x66}, "msglen63"},
 	}
+	{
+		// decompressed-size limit tripping INSIDE a message: the first fragment ends on a deflate block
+		// boundary and already inflates to 50 bytes (limit 10); the ping after it must not be answered
+		var zb bytes.Buffer
+		fw, _ := flate.NewWriter(&zb, 1)
+		fw.Write(bytes.Repeat([]byte("x"), 50))
+		fw.Flush()
+		n1 := zb.Len()
+		fw.Write(bytes.Repeat([]byte("y"), 50))
+		fw.Flush()
+		z := zb.Bytes()
+		z = z[:len(z)-4]
+		corpus = append(corpus, cc{withC(srv, func(c *c29Cfg) { c.Compress = true; c.DLimit = 10 }),
+			mk(c29Frame{Op: 2, Rsv: 0x40, Masked: true, Key: k, Payload: z[:n1]},
+				c29Frame{Fin: true, Op: 9, Masked: true, Key: k, Payload: []byte("late")},
+				c29Frame{Fin: true, Op: 0, Masked: true, Key: k, Payload: z[n1:]}), "dlimit-inside-message"})
+		corpus = append(corpus, cc{withC(srv, func(c *c29Cfg) { c.Compress = true; c.DLimit = 60 }),
+			mk(c29Frame{Op: 2, Rsv: 0x40, Masked: true, Key: k, Payload: z[:n1]},
+				c29Frame{Fin: true, Op: 9, Masked: true, Key: k, Payload: []byte("soon")},
+				c29Frame{Fin: true, Op: 0, Masked: true, Key: k, Payload: z[n1:]}), "dlimit-at-end-of-message"})
+	}
 	for i := 0; i < w.N; i++ {
 		if !w.Want(i) {
 			continue
@@ -1114,21 +1166,16 @@ func TestVerifC29(t *testing.T) {
 			c29Pair(w, i, r, close1)
 			continue
 		}
-		if fam >= 7 {
-			// the decompressed-size limit is modelled per message; the implementation may trip it
-			// earlier inside a message, which only shows on truncated or violating streams
-			cfg.DLimit = 0
-		}
 		switch {
 		case fam < 7: // conforming session, possibly ended by a close frame
 			big := r.Intn(40) == 0
-			frames, _ := c29Session(r, cfg, big, cfg.DLimit > 0)
+			frames, _ := c29Session(r, cfg, big, false)
 			if r.Intn(2) == 0 {
 				frames = append(frames, c29Close(r, cfg.Server))
 			}
 			c29Emit(w, i, cfg, c29Encode(frames), "valid")
 		case fam < 10: // truncated conforming session
-			frames, _ := c29Session(r, cfg, false, cfg.DLimit > 0)
+			frames, _ := c29Session(r, cfg, false, false)
 			frames = append(frames, c29Close(r, cfg.Server))
 			s := c29Encode(frames)
 			c29Emit(w, i, cfg, s[:r.Intn(len(s)+1)], "truncated")
